@@ -13,29 +13,40 @@ def core(line):
     return line.split(" S{", 1)[0].rstrip()
 
 
-def run(histories, timeout=600):
-    """histories: list of op lists (each must start with `new`).  Returns per history (impl lines, model lines or None where the model has no opinion)."""
-    ops = [o for h in histories for o in h]
-    impl, _ = common.run_impl("api", "\n".join(ops) + "\n", stateless=True, timeout=timeout)     # a fault ends the instance: the harness restarts and the next `new` starts afresh
+def _run_batch(args):
+    hs, timeout = args
+    ops = [o for h in hs for o in h]
+    impl, _ = common.run_impl("api", "\n".join(ops) + "\n", stateless=True, timeout=timeout)     # a fault ends the instance: the harness restarts, the next `new` starts afresh
     mops = [o for o in ops if o.split()[0] in MODEL_OPS]
     try:
-        mout = common.run_model("seq", "\n".join(mops) + "\n")
+        mout = common.run_model("seq", "\n".join(mops) + "\n", timeout=timeout)
     except Exception as e:
         mout = None
-        err = str(e)[:300]
+    return impl, mout
+
+
+def run(histories, timeout=600, batch=24):
+    """histories: list of op lists (each must start with `new`).  Returns per history (impl lines, model lines or None where the model has no opinion).
+    The histories are run in batches (own harness / model process each, own watchdog), several batches at a time."""
+    from concurrent.futures import ThreadPoolExecutor
+    common.build_harness("asan"); common.model_exe()
+    batches = [histories[i:i + batch] for i in range(0, len(histories), batch)]
+    with ThreadPoolExecutor(max_workers=min(12, max(1, len(batches)))) as ex:
+        outs = list(ex.map(_run_batch, [(b, timeout) for b in batches]))
     res = []
-    pos = mp = 0
-    for h in histories:
-        io = impl[pos:pos + len(h)]
-        mo = []
-        for o in h:
-            if o.split()[0] in MODEL_OPS:
-                mo.append(mout[mp] if mout is not None and mp < len(mout) else "<missing>")
-                mp += 1
-            else:
-                mo.append(None)
-        res.append((io, mo))
-        pos += len(h)
+    for hs, (impl, mout) in zip(batches, outs):
+        pos = mp = 0
+        for h in hs:
+            io = impl[pos:pos + len(h)]
+            mo = []
+            for o in h:
+                if o.split()[0] in MODEL_OPS:
+                    mo.append(mout[mp] if mout is not None and mp < len(mout) else "<missing>")
+                    mp += 1
+                else:
+                    mo.append(None)
+            res.append((io, mo))
+            pos += len(h)
     return res
 
 
